@@ -101,6 +101,7 @@ fn main() {
         "c15-names" => c15::names(&ctx),
         "c03-cek" => c03::run(&ctx),
         "c05-budget" => c05::run(&ctx),
+        "c05-cost" => c05::cost(&ctx),
         "c16-shrink" => c16::shrink(&ctx),
         "c16-e2e" => c16::e2e(&ctx),
         "c08-flat" => c08::run(&ctx),
